@@ -578,42 +578,77 @@ fn check_secret_paths(rep: &mut Report, case: u64, world: &World, rng: &mut Rng)
             }
         })
         .collect();
+    // one step in three is a multipath step <a;b;..> of 2-4 alternatives drawn from three values, so
+    // alternatives repeat (<0;1;0>): every alternative has to derive the path that selects it
+    let mp_at: Option<usize> = if rng.chance(1, 3) { Some(rng.below(n_steps)) } else { None };
+    let alts: Vec<ChildNumber> = match mp_at {
+        Some(_) => {
+            let hard = rng.chance(1, 4);
+            (0..2 + rng.below(3))
+                .map(|_| {
+                    let idx = rng.below(3) as u32;
+                    if hard { ChildNumber::from_hardened_idx(idx).unwrap() } else { ChildNumber::from_normal_idx(idx).unwrap() }
+                })
+                .collect()
+        }
+        None => vec![],
+    };
     let wildcard = rng.chance(2, 3);
     let origin = if rng.chance(1, 3) { format!("[{}/44h/{}]", master.fingerprint(&world.secp), rng.below(3)) } else { String::new() };
-    let path_text: String = steps.iter().map(|c| format!("/{}", c)).collect();
+    let path_text: String = steps
+        .iter()
+        .enumerate()
+        .map(|(i, c)| if Some(i) == mp_at { format!("/<{}>", alts.iter().map(|a| a.to_string()).collect::<Vec<_>>().join(";")) } else { format!("/{}", c) })
+        .collect();
     let key_text = format!("{}{}{}{}", origin, master, path_text, if wildcard { "/*" } else { "" });
     let wrapper = *rng.pick(&["wpkh(@)", "pkh(@)", "sh(wpkh(@))", "wsh(pk(@))", "tr(@)"]);
     let s = wrapper.replace('@', &key_text);
     let index = rng.below(4) as u32;
     rep.eval();
+    let n_alt = if mp_at.is_some() { alts.len() } else { 1 };
     let r = guarded(std::panic::AssertUnwindSafe(|| {
         let (d, km) = Descriptor::parse_descriptor(&world.secp, &s).map_err(|e| e.to_string())?;
-        let spk = d.at_derivation_index(index).map_err(|e| e.to_string())?.derived_descriptor(&world.secp).script_pubkey().to_bytes();
-        Ok::<_, String>((spk, d.to_string(), km.len()))
+        let singles = if mp_at.is_some() { d.clone().into_single_descriptors().map_err(|e| e.to_string())? } else { vec![d.clone()] };
+        let mut spks = vec![];
+        for sd in &singles {
+            spks.push(sd.at_derivation_index(index).map_err(|e| e.to_string())?.derived_descriptor(&world.secp).script_pubkey().to_bytes());
+        }
+        Ok::<_, String>((spks, d.to_string(), km.len()))
     }));
     // model: private derivation of the whole path with rust-bitcoin, then the same wrapper over the plain key
-    let mut full: Vec<ChildNumber> = steps.clone();
-    if wildcard {
-        full.push(ChildNumber::from_normal_idx(index).unwrap());
+    let mut wants: Vec<Vec<u8>> = vec![];
+    for j in 0..n_alt {
+        let mut full: Vec<ChildNumber> = steps.clone();
+        if let Some(i) = mp_at {
+            full[i] = alts[j];
+        }
+        if wildcard {
+            full.push(ChildNumber::from_normal_idx(index).unwrap());
+        }
+        let child = match master.derive_priv(&world.secp, &DerivationPath::from(full)) {
+            Ok(c) => c,
+            Err(_) => return,
+        };
+        let pk = bitcoin::secp256k1::PublicKey::from_secret_key(&world.secp, &child.private_key);
+        let plain = if wrapper.starts_with("tr") { hex(&pk.x_only_public_key().0.serialize()) } else { hex(&pk.serialize()) };
+        match Descriptor::<Dk>::from_str(&wrapper.replace('@', &plain)) {
+            Ok(d) => wants.push(d.script_pubkey().to_bytes()),
+            Err(_) => return,
+        }
     }
-    let child = match master.derive_priv(&world.secp, &DerivationPath::from(full)) {
-        Ok(c) => c,
-        Err(_) => return,
-    };
-    let pk = bitcoin::secp256k1::PublicKey::from_secret_key(&world.secp, &child.private_key);
-    let plain = if wrapper.starts_with("tr") { hex(&pk.x_only_public_key().0.serialize()) } else { hex(&pk.serialize()) };
-    let want = match Descriptor::<Dk>::from_str(&wrapper.replace('@', &plain)) {
-        Ok(d) => d.script_pubkey().to_bytes(),
-        Err(_) => return,
-    };
     match r {
-        Ok(Ok((spk, public, n))) => {
+        Ok(Ok((spks, public, n))) => {
             rep.nontrivial(&format!("secret-path|{}|{}", s.len(), public));
-            if spk != want {
+            if mp_at.is_some() {
+                rep.count("secret-key-multipath-descriptors");
+            }
+            if spks.len() != wants.len() {
+                rep.violation(case, "C16:multipath-count".into(), format!("{} splits into {} descriptors, expected {}", s, spks.len(), wants.len()));
+            } else if let Some(j) = (0..spks.len()).find(|&j| spks[j] != wants[j]) {
                 rep.violation(
                     case,
-                    "C16:secret-key-path-differs-from-bip32".into(),
-                    format!("{} at index {}: parse_descriptor gives the public descriptor {} ({} secret(s)) whose scriptPubKey is {}, private BIP-32 derivation of the written path gives {}", s, index, public, n, hex(&spk), hex(&want)),
+                    if mp_at.is_some() { "C16:secret-key-multipath-alternative-differs-from-bip32".to_string() } else { "C16:secret-key-path-differs-from-bip32".to_string() },
+                    format!("{} at index {} alternative {}: parse_descriptor gives the public descriptor {} ({} secret(s)) whose scriptPubKey is {}, private BIP-32 derivation of the written path gives {}", s, index, j, public, n, hex(&spks[j]), hex(&wants[j])),
                 );
             } else {
                 rep.count("secret-key-path-equals-bip32");
